@@ -12,12 +12,12 @@ RULE = ("kinds: delta (random dense vector x element on a real cost table: the c
         "dataset with >= 3 elements; distinct by JSON")
 TRUSTED = common.TRUSTED_BASE + ["hand translation of bioconsert.py:28-447 (tied by this run, numba kernels called directly)",
                                  "threshold 0.001 on the dyadic grid == strict negativity of the scaled integer delta"]
-ASSUMPTIONS = ["dyadic penalties with scale < 1000, so `x < -0.001` is `x < 0` on the grid"]
+ASSUMPTIONS = ["dyadic penalties: `x < -0.001` is `k < -floor(scale/1000)` on the scaled integer grid (scales up to 4096)"]
 FUEL = 10000
 
 
 def budget(tier):
-    return 900 if tier == "quick" else 18000
+    return 4000 if tier == "quick" else 40000
 
 
 def dense_vec(rng, n):
@@ -32,7 +32,7 @@ def gen(rng, index, tier):
     nmax = 7 if tier == "quick" else 10
     raw, meta = lib.gen_dataset(rng, nmax=nmax, mmax=5, nmin=2 if kind != "run" else 1)
     n = len(lib.dataset_elems(raw))
-    sch = lib.gen_scheme(rng, family=rng.choice(["preset", "grid", "grid", "preset_mult", "zeroheavy"]))
+    sch = lib.gen_scheme(rng, family=rng.choice(["preset", "grid", "grid", "preset_mult", "zeroheavy", "fine", "fine", "cheap_ties"]))
     case = {"kind": kind, "dataset": raw, "scheme": sch, "meta": meta}
     if kind in ("delta", "improve"):
         case["r"] = dense_vec(rng, n)
@@ -136,20 +136,20 @@ def ops(case, out):
     if case["kind"] == "run":
         if "rankings" not in out:
             return []
-        res = [("bio.run", [S, [out["obs"], [out["starters_cons"], [int(case["amo"]), [0, FUEL]]]]])]
-        res.append(("c08.holds", [S, [out["obs"], [0, out["rankings"]]]]))
+        res = [("bio.run", [S, [out["obs"], [out["starters_cons"], [int(case["amo"]), [lib.tau(case["scheme"]), FUEL]]]]])]
+        res.append(("c08.holds", [S, [out["obs"], [lib.tau(case["scheme"]), out["rankings"]]]]))
         return res
     if not biocommon.table_is_int(out["table"]):
         return []
     t = out["table"]
     if case["kind"] == "improve":
-        return [("bio.improve", [t, [0, [FUEL, case["r"]]]])]
+        return [("bio.improve", [t, [lib.tau(case["scheme"]), [FUEL, case["r"]]]])]
     r = case["r"]
     x = case["x"]
     b = r[x]
     res = [("bio.delta", [t, [r, x]])]
     if all(isinstance(v, int) for v in out["change_raw"] + out["add_raw"]):
-        res.append(("bio.search", [0, [b, [out["change_raw"], [out["add_raw"], max(r)]]]]))
+        res.append(("bio.search", [lib.tau(case["scheme"]), [b, [out["change_raw"], [out["add_raw"], max(r)]]]]))
     for kind, tgt, _ in out["moves"]:
         res.append(("bio.move", [kind, [r, [x, [b, [tgt, out["alone"]]]]]]))
     return res
